@@ -30,6 +30,16 @@ def stringToHex (s : String) : String := hex (s.toList.map fun c => UInt8.ofNat 
 
 def segs (h : String) : List String := segsOfString (bytesToString (unhex h))
 
+/-- the segments a query string denotes in `tree`.  A string that ends in a separator and whose segments lead to a regular file
+    names nothing (POSIX: ENOTDIR — the final separator asks for an entry *below* the file), which is what looking up the
+    empty name below that file says in the model too (`resolve (.file _) (_ :: _) = none`) -/
+def segsIn (tree : FsNode) (h : String) : List String :=
+  let raw := bytesToString (unhex h)
+  let base := segsOfString raw
+  match base, resolve tree base with
+  | _ :: _, some (.file _) => if raw.endsWith "/" then base ++ [""] else base
+  | _, _ => base
+
 /-- put `new` at `path` (parents must exist; an existing entry of that name is replaced) -/
 def insertAt : List String → FsNode → FsNode → FsNode
   | [], _, new => new
@@ -81,24 +91,24 @@ def step (s : State) (args : List String) : State × String :=
   -- tree
   | ["mkdir", p] => ({ s with tree := insertAt (segs p) s.tree (.dir []) }, "ok")
   | ["mkfile", p, n] => ({ s with tree := insertAt (segs p) s.tree (.file n.toNat!) }, "ok")
-  | ["exists", p] => (s, if pExists s.tree (segs p) then "b=1" else "b=0")
-  | ["isfile", p] => (s, if pIsFile s.tree (segs p) then "b=1" else "b=0")
-  | ["isdir", p] => (s, if pIsDirectory s.tree (segs p) then "b=1" else "b=0")
+  | ["exists", p] => (s, if pExists s.tree (segsIn s.tree p) then "b=1" else "b=0")
+  | ["isfile", p] => (s, if pIsFile s.tree (segsIn s.tree p) then "b=1" else "b=0")
+  | ["isdir", p] => (s, if pIsDirectory s.tree (segsIn s.tree p) then "b=1" else "b=0")
   | ["size", p] =>
-    match pSize rd s.tree (s.tree.depth + 1) (segs p) with
+    match pSize rd s.tree (s.tree.depth + 1) (segsIn s.tree p) with
     | .ok n => (s, "n=" ++ toString n)
     | .error e => (s, fsErr e)
   | ["list", p] =>
-    match listChildren rd s.tree (segs p) with
+    match listChildren rd s.tree (segsIn s.tree p) with
     | .ok l => (s, showList l)
     | .error e => (s, fsErr e)
   -- the specification side, compared with std::filesystem in the harness
   | ["sfs_size", p] =>
-    match resolve s.tree (segs p) with
+    match resolve s.tree (segsIn s.tree p) with
     | some n => (s, "n=" ++ toString n.fileBytes)
     | none => (s, "!NotFound")
   | ["sfs_list", p] =>
-    match resolve s.tree (segs p) with
+    match resolve s.tree (segsIn s.tree p) with
     | some (.dir cs) => (s, showList (cs.map Prod.fst))
     | some (.file _) => (s, "!NotDirectory")
     | none => (s, "!NotFound")
